@@ -51,6 +51,8 @@ theorem put_sim {d d' : Disk} (h : DSim d d') (f : FImg) :
     by_cases h2 : f.chunkLen ≠ 256
     · simp only [if_pos h2]; exact ⟨trivial, h⟩
     · simp only [if_neg h2]
+      -- the model's default variant (`rp := {}`, the source before repair 92058e4) has no chunk guard
+      simp only [Bool.false_and, Bool.false_eq_true, ↓reduceIte]
       by_cases h3 : (!isNameValid f.fullPath) = true
       · simp only [if_pos h3]; exact ⟨trivial, h⟩
       · simp only [if_neg h3]; exact run_sim (Resp.writeFile f) h
